@@ -201,10 +201,9 @@ pub fn h_c09_scope() {
         if el_ns != i.none && !own.iter().any(|(_, n)| *n == el_ns) {
             need.push(el_ns);
         }
-        // (an attribute needs a non-empty prefix; whether a default-only binding counts as
-        // "resolved" for unresolved_namespaces is not pinned down by the property: only the
-        // unambiguous case - no binding at all - is required to be reported)
-        if at_ns != i.none && !own.iter().any(|(_, n)| *n == at_ns) && !need.contains(&at_ns) {
+        // an attribute name needs a non-empty prefix (the default binding never applies to attributes), so a
+        // namespace that the element itself only binds as default is still unresolved for its attribute
+        if at_ns != i.none && !own.iter().any(|(p, n)| *n == at_ns && *p != i.empty) && !need.contains(&at_ns) {
             need.push(at_ns);
         }
         let may_need_attr = at_ns != i.none && !own.iter().any(|(p, n)| *n == at_ns && *p != i.empty);
@@ -217,7 +216,7 @@ pub fn h_c09_scope() {
                 let bound = sc_x.iter().any(|(_, n)| *n == el_ns);
                 sym::check("unresolved-namespaces-from-ancestor", got.contains(&el_ns) == !bound || (at_ns == el_ns));
             }
-            if at_ns != i.none && !sc_x.iter().any(|(_, n)| *n == at_ns) {
+            if at_ns != i.none && !sc_x.iter().any(|(p, n)| *n == at_ns && *p != i.empty) {
                 sym::check("unresolved-namespaces-from-ancestor-attribute", got.contains(&at_ns));
             }
             for ns in &got {
